@@ -307,10 +307,11 @@ def run(ctx):
     for target in (0x0000, 0xFFFF):
         for kind in C.DIRECTIVE_KINDS:
             cfg = C.rand_cfg(r, crc=1, seqw=r.choice((2, 4, 8)))
-            got = C.craft_crc_boundary(kind, cfg, C.rand_params(r, kind, cfg), "header", target)
-            if got is not None:
-                ctx.table("crc_register_at_boundary", f"{kind}/header/{target:04x}")
-                k_pdu(ctx, kind, got[0], got[1], model_fed=bool(target))
+            for where in ("header", "whole"):
+                got = C.craft_crc_boundary(kind, cfg, C.rand_params(r, kind, cfg, rich=False), where, target)
+                if got is not None:
+                    ctx.table("crc_register_at_boundary", f"{kind}/{where}/{target:04x}")
+                    k_pdu(ctx, kind, got[0], got[1], model_fed=bool(target))
     # one caller-owned configuration re-used (and updated in place) for several PDUs
     for j in range(ctx.n(700, 50_000)):
         k_conf_reuse(ctx, C.DIRECTIVE_KINDS[j % 7], ctx.seed * 1_000_003 + ctx.shard[0] * 100_003 + j)
